@@ -163,6 +163,7 @@ def parse_tr(lst):
 
 EXACT = {1, 2, 3, 4, 5, 10, 11, 12, 13, 15}
 MODEL_ONLY = {8, 17}
+IMPL_ONLY = {18}
 POINTS = {6, 16}
 TRANS = {7, 14}
 OBS_NAMES = {1: "prover phase-1 call results", 2: "prover secrets after phase 1", 3: "prove result",
@@ -180,7 +181,7 @@ def compare_case(cid, m, im, info, msm_lines):
     if im is None:
         return [(0, "implementation produced no output for this case")]
     curve, cap, extra = info["curve"], info.get("cap", 1), info.get("extra", 0)
-    codes = sorted((set(k for k in m.keys() if k not in MODEL_ONLY) | set(k for k in im.keys() if k < 90)))
+    codes = sorted((set(k for k in m.keys() if k not in MODEL_ONLY) | set(k for k in im.keys() if k < 90 and k not in IMPL_ONLY)))
     for code in codes:
         a = m.get(code)
         b = im.get(code)
@@ -287,8 +288,12 @@ def run_component(comp, streams, seed, tier, name, curves=None, extra_args=None)
     res.summary = summ
     res.model, res.impl = model, impl
     msm_lines = []
+    if comp == "ped":
+        return finish_ped(res, model, impl, summ, outdir, t0)
     for cid in summ:
         res.cases += 1
+        if "nomodel=1" in summ[cid].get("line", ""):
+            continue
         d = compare_case(cid, model.get(cid), impl.get(cid), summ[cid], msm_lines)
         for code, text in d:
             res.disagreements.append((cid, code, text))
@@ -300,6 +305,36 @@ def run_component(comp, streams, seed, tier, name, curves=None, extra_args=None)
                                   "point does not equal msm(real generators, model coefficients): " + tag))
     for f, e in res.model_errors:
         res.disagreements.append(("model", 0, "model evaluation failed in %s: %s" % (os.path.basename(str(f)), str(e)[:300])))
+    res.wall = time.time() - t0
+    return res
+
+
+def finish_ped(res, model, impl, summ, outdir, t0):
+    """Pedersen component: impl flags must all be 1; model law flags must be 1; the model's coefficient vector
+    re-materialised over the case's own bases must equal both PedersenGens::commit and Prover::commit"""
+    lines = {l.split()[0]: l.split() for l in open(os.path.join(outdir, "msm2_in.txt")) if l.strip()}
+    with open(os.path.join(outdir, "msm2.txt"), "w") as f:
+        for cid in summ:
+            res.cases += 1
+            m, im = model.get(cid), impl.get(cid)
+            if not m or not im:
+                res.disagreements.append((cid, 0, "missing output"))
+                continue
+            flags = [int(x) for x in im.get(1, [])]
+            names = ["commit == msm([B,B~],[v,r])", "Prover::commit == PedersenGens::commit", "homomorphism", "commit(0,0) identity", "scaling"]
+            for nm, fl in zip(names, flags):
+                if fl != 1:
+                    res.disagreements.append((cid, 1, "implementation: %s fails" % nm))
+            if m.get(3) != [1, 1, 1]:
+                res.disagreements.append((cid, 3, "model laws evaluate to %s" % m.get(3)))
+            f.write(" ".join(lines[cid]) + " %d %d\n" % (m[2][0], m[2][1]))
+    rc, out = sh([BIN, "msmcheck2", os.path.join(outdir, "msm2.txt")], timeout=1800)
+    for l in out.splitlines():
+        if l.startswith("BAD "):
+            res.disagreements.append((l.split()[1], 2, "commitment != msm(bases, model coefficient vector)"))
+    if "MSMCHECK total=" not in out:
+        res.disagreements.append(("harness", 0, "msmcheck2 crashed: " + out[-300:]))
+    res.msm_checked = res.cases * 2
     res.wall = time.time() - t0
     return res
 
